@@ -55,12 +55,13 @@ class Rule:
 
     def floor(self, name, n):
         """n must be >= the number counted by hand on the pinned tree."""
-        fl = self.ctx.floors.get(self.id + ":" + name)
-        self.ctx.measured[self.id + ":" + name] = n
+        fkey = self.ctx.prop + ":" + self.id + ":" + name
+        fl = self.ctx.floors.get(fkey)
+        self.ctx.measured[fkey] = n
         if fl is None and self.ctx.calibrating:
             return True
         if fl is None:
-            raise build.MachineryError("no floor recorded for %s:%s (measured %d)" % (self.id, name, n))
+            raise build.MachineryError("no floor recorded for %s (measured %d)" % (fkey, n))
         if n < fl:
             self.violation("<floor>", name,
                            "instance count %d for '%s' fell below the floor %d counted on the pinned tree: "
